@@ -44,9 +44,10 @@ def gen_case(rng):
         cwnd = float(cwnd) + rng.choice([0.0, 0.5, 100.25])
     ssthresh = rng.choice([0, 100, ccmss, 2 * ccmss, 4096, 65535, 65535, 10 ** 9, rng.uniform(0, 30000)])
     rtt = rng.choice([1.0, 1.0, 0.2, 0.05, 2.5, round(rng.uniform(0.01, 3.0), 3)])
-    size = None if rng.random() < 0.7 else rng.randint(1, 60) * MSS
+    seg = ccmss if kind == 'reno' else MSS          # the sender segments at its congestion controller's MSS
+    size = None if rng.random() < 0.7 else rng.randint(1, 60) * seg
     if size is None and (ssthresh > 200000 or cwnd > 200000):
-        size = rng.randint(20, 400) * MSS        # an unbounded flow would fill a window of 10^9 bytes with segments
+        size = rng.randint(20, 400) * seg        # an unbounded flow would fill a window of 10^9 bytes with segments
     n = rng.randint(3, 28)
     script = []
     for _ in range(n):
@@ -117,6 +118,7 @@ def run_impl(case):
         return a
 
     def driver():
+        MSS = s.mss          # the sender's segment size (public attribute)
         for st in case['script']:
             g = gap_of(st['gap'])
             if g > 0:
@@ -198,6 +200,7 @@ def cubic_expect(c, cw, ss, mss, rtt, now):
 def oracle(case, sr, hist):
     fails = []
     mss = case['ccmss'] if case['kind'] == 'reno' else 512
+    MSS = sr.sender.mss      # the sender's segment size
 
     def bad(what, sig, r):
         fails.append({'what': f'{what} [event `{r["line"]}`; before cwnd={r["before"]["cwnd"]} ssthresh={r["before"]["ssthresh"]} '
